@@ -115,6 +115,14 @@ class HarnessError(Exception):
     pass
 
 
+class GuardError(HarnessError):
+    """a vacuity or count guard (the run explored less than it must); expected, and ignored, in a light configuration pass"""
+
+
+# configuration passes (mc/cli.py) re-run a check under another interpreter configuration on every LIGHT-th shard only
+LIGHT = int(os.environ.get("VERIF_LIGHT", "0") or 0)
+
+
 def default_jobs():
     env = os.environ.get("VERIF_JOBS")
     if env:
@@ -131,6 +139,14 @@ def run_shards(fn, shards, jobs=None):
     total = {}
     shards = list(shards)
     del _HISTORY[:]
+    if LIGHT > 1 and len(shards) > 1:
+        try:
+            off = int(os.environ.get("VERIF_SEED", "0") or 0) % LIGHT
+        except ValueError:
+            off = 0
+        kept = shards[off::LIGHT] or shards[:1]
+        total = {"truncated": 1, "skipped_shards": len(shards) - len(kept)}
+        shards = kept
     if not shards:
         return total
     if jobs == 1 or len(shards) == 1:
@@ -143,7 +159,7 @@ def run_shards(fn, shards, jobs=None):
     global _counter
     ctx = mp.get_context("fork")
     _counter = ctx.Value("i", 0)
-    with ctx.Pool(min(jobs, len(shards))) as pool:
+    with ctx.Pool(min(jobs, len(shards)), initializer=pin_to_one_cpu) as pool:
         for st, val in pool.imap_unordered(_call, [(fn, sh) for sh in shards], chunksize=1):
             if st != "ok":
                 pool.terminate()
@@ -159,6 +175,15 @@ def ranges(size, parts):
     return [(lo, min(size, lo + step)) for lo in range(0, size, step)]
 
 
+def pin_to_one_cpu():
+    """configuration pass 'onecpu': this process (and what it spawns) may use a single CPU, so that os.sched_getaffinity / os.cpu_count
+    based sizing in the code under test sees a one-core machine; the CPU is chosen by pid, so a pool still spreads over the machine"""
+    if os.environ.get("VERIF_ONE_CPU") and hasattr(os, "sched_setaffinity"):
+        cpus = sorted(os.sched_getaffinity(0))
+        if len(cpus) > 1:
+            os.sched_setaffinity(0, {cpus[os.getpid() % len(cpus)]})
+
+
 def in_forked_child(fn):
     """run fn() in a forked child and return its (picklable) result: nothing the call leaves behind in module or class state
     reaches the calling process"""
@@ -168,6 +193,7 @@ def in_forked_child(fn):
     if pid == 0:
         try:
             os.close(r)
+            pin_to_one_cpu()
             try:
                 out = ("ok", fn())
             except BaseException as e:                       # noqa: BLE001
